@@ -4,7 +4,7 @@ import CoercionModel.Proofs.Flush
 import CoercionModel.Generated.F9
 import CoercionModel.Model.Skeletons
 import CoercionModel.Generated.F10
-import CoercionModel.Proofs.Translated
+import CoercionModel.Proofs.TranslatedPreds
 import CoercionModel.Proofs.FixIdem
 set_option linter.unusedSimpArgs false
 /-
